@@ -313,6 +313,11 @@ def load_findings():
         return json.load(fh)["findings"]
 
 
+SAFE = {"len": len, "max": max, "min": min, "abs": abs, "any": any, "all": all, "isinstance": isinstance, "int": int,
+        "tuple": tuple, "list": list, "sum": sum, "float": float, "zip": zip, "range": range, "sorted": sorted,
+        "set": set, "str": str, "bool": bool, "True": True, "False": False, "None": None}
+
+
 class _NS(dict):
     def __missing__(self, k):
         return None
@@ -328,8 +333,7 @@ def classify(prop, case, mismatch, findings):
                 ns.setdefault(kk, vv)
     ns["mismatch"] = mismatch
     ns["kind"] = mismatch.get("kind")
-    ns.update({"len": len, "max": max, "min": min, "abs": abs, "any": any, "all": all, "isinstance": isinstance,
-               "int": int, "tuple": tuple, "list": list, "sum": sum, "float": float, "zip": zip})
+    ns.update(SAFE)
     for f in findings:
         if f.get("status") != "open" or f["property"] != prop:
             continue
@@ -338,9 +342,7 @@ def classify(prop, case, mismatch, findings):
         if f.get("kind") and not re.fullmatch(f["kind"], str(mismatch.get("kind"))):
             continue
         try:
-            if eval(f["condition"], {"__builtins__": {"len": len, "max": max, "min": min, "abs": abs, "any": any,
-                                                      "all": all, "isinstance": isinstance, "int": int,
-                                                      "tuple": tuple, "list": list, "sum": sum}}, ns):
+            if eval(f["condition"], {"__builtins__": SAFE}, ns):
                 return f["id"]
         except Exception:
             continue
